@@ -16,7 +16,7 @@ pub fn info() -> CheckInfo {
         rule: "generated programs built to trigger several syntactic checks at once (CWE676 strcpy/memcpy/.., CWE467 size 8, CWE560 umask, CWE782 ioctl, CWE332 rand without srand, CWE243 chroot without chdir, CWE426 setuid+system, CWE367 access/open, CWE215 .debug sections) as ET_EXEC / PIE / kernel-module ELF, run through the real CLI with default selection, random --partial lists (shuffled, with repeated names and empty items), names that are not checks (incl. proper prefixes of check names) and --module-versions. Oracle on the module_run events of hook H2: partial => executed multiset == set of requested names, each once; default => every name of --module-versions except CWE78; kernel module => names of --module-versions that are in MODULES_LKM; every warning's owning check (CWE125/CWE787 -> CWE119, CWE415 -> CWE416) is in the executed set; every executed check the input is built to trigger printed >= 1 warning; a list containing a non-check either is rejected (non-zero exit) or executes nothing that was not listed; --module-versions lists each get_modules() name exactly once. non-trivial = a run with >= 1 event and >= 1 warning; distinct = hash of (P-Code JSON, argument list)",
         assumptions: &[
             "hook H2 (feature verif) reports every executed check before it runs; zero events over the whole run = inconclusive",
-            "on kernel modules --partial lists are restricted to the kernel-module subset (lkm_config.json has no entries for the other checks)",
+            "on kernel modules --partial lists are restricted to the checks that have a section in the shipped lkm_config.json (kernel-module subset plus Memory); other checks panic on their missing configuration",
             "the triggers are purely syntactic patterns whose detection does not depend on analysis precision (documented 'how the check works' sections)",
             "whether a list with an unknown name must be rejected is not demanded: rejected/accepted is recorded; only executing unlisted checks is a violation",
         ],
@@ -34,6 +34,18 @@ pub enum Expect {
     Exactly(BTreeSet<String>),
     /// list contains a non-check: rejection is fine, otherwise nothing outside `listed` may run
     Invalid(BTreeSet<String>),
+}
+
+/// Checks that have a section in the shipped `lkm_config.json`.
+fn lkm_configured_names(env: &CliEnv) -> BTreeSet<String> {
+    let keys: BTreeSet<String> = std::fs::read_to_string("/repo/src/lkm_config.json")
+        .ok()
+        .and_then(|t| serde_json::from_str::<Value>(&t).ok())
+        .and_then(|v| v.as_object().map(|o| o.keys().cloned().collect()))
+        .unwrap_or_default();
+    let mut names: BTreeSet<String> = env.names().into_iter().filter(|n| keys.contains(n)).collect();
+    names.extend(lkm_names(env));
+    names
 }
 
 fn lkm_names(env: &CliEnv) -> BTreeSet<String> {
@@ -147,7 +159,9 @@ fn check_input(env: &CliEnv, inp: &Input, rng: &mut Rng, rep: &mut Report) {
     let size = inp.pcode.len() as u64;
     let all: BTreeSet<String> = env.names().into_iter().collect();
     let lkm = inp.kind == ElfKind::Lkm;
-    let pool: Vec<String> = if lkm { lkm_names(env).into_iter().collect() } else { env.names() };
+    // On kernel modules every check that has a section in the shipped lkm_config.json can be requested with --partial
+    // (that is the kernel-module subset plus e.g. `Memory`); checks without a section there panic on their config (user error).
+    let pool: Vec<String> = if lkm { lkm_configured_names(env).into_iter().collect() } else { env.names() };
     let mut runs: Vec<(String, Vec<String>, Expect)> = Vec::new();
     // default selection
     let default_expect: BTreeSet<String> = if lkm { lkm_names(env) } else { all.iter().filter(|n| n.as_str() != "CWE78").cloned().collect() };
